@@ -182,7 +182,9 @@ pub const SCRIPTS: &[(&str, &[&str], u8)] = &[
     ("Anatolian_Hieroglyphs", &["Hluw"], 0),
     ("Pahawh_Hmong", &["Hmng"], 0),
     ("Nyiakeng_Puachue_Hmong", &["Hmnp"], 0),
-    ("Katakana_Or_Hiragana", &["Hrkt"], 0),
+    // Katakana_Or_Hiragana (Hrkt) is listed in PropertyValueAliases.txt but no code point has it
+    // as its Script; engines and the generated test suites differ on whether it is admitted, so
+    // the reference model does not claim it either way (it is simply not generated or compared).
     ("Old_Hungarian", &["Hung"], 0),
     ("Old_Italic", &["Ital"], 0),
     ("Javanese", &["Java"], 0),
